@@ -68,7 +68,7 @@ LEVEL_TEXT = ("Generated-schedule exploration of 2–3 same-session requests rac
               "registry functions); finds dispatch/close overlaps reachable with ≤6 threads and a handful of preemptions, "
               "each (closer, phase) race under its own key; does not prove their absence.")
 LEVEL_NOTE = ("Trusts lib/sched.py's serialisation; unary calls only; one worker; the session state's close() and the method "
-              "body are harness code; races already recorded in known_findings.d/C26.jsonl are excluded by key.")
+              "body are harness code; races already recorded in known_findings.jsonl are excluded by key.")
 
 # --------------------------------------------------------------------------- strategies
 
